@@ -102,7 +102,7 @@ impl Drop for EndToken {
             pipes[1 - self.side].wr_closed = true;
             pipes[self.side].rd_closed = true;
         }
-        if !std::thread::panicking() {
+        if !crate::thread::panicking() {
             self.conn.wq.wake_all();
         }
     }
